@@ -227,9 +227,10 @@ def walkEntry (last : Nat) (e : Entry) (x : DState × List Ev) : Bool × (DState
     else (false, x)
   | .commitRemovedNodes, .ids lids =>
     if last > Step.commitRemovedNodes.ord && !lids.isEmpty then
-      -- rollbackRemovedNodes(nodesAreLocked = false): Get, clear deleted/timestamp where set, registry.Update
+      -- rollbackRemovedNodes(nodesAreLocked = false): Get, clear deleted/timestamp where set (a handle that still carries
+      -- an earlier commit's obsolete id in its inactive slot keeps the "expired" marker 1: fix 212dd4ca), registry.Update
       let undo := fun (d : DState) => ((lids.filterMap d.s.reg).filter (fun h => h.deleted || h.wip > 0)).map
-        (fun h => { h with deleted := false, wip := 0 })
+        (fun h => { h with deleted := false, wip := if h.bothInUse then 1 else 0 })
       (false, emit { cls := .regUpdate, args := .handles (undo x.1) } (fun d => { d with s := d.s.setRegs (undo d) }) x)
     else (false, x)
   | .commitUpdatedNodes, .ids staged =>
